@@ -87,6 +87,9 @@ void op_meta (char **tok, int ntok) ;
 /* ieee.c (C20: portable IEEE serialisers, sfendian.h helpers) */
 int cmd_ieee (int argc, char **argv) ;
 
+/* fsize.c (C16: RLIMIT_FSIZE, so that writes to real files fail at a chosen moment) */
+void op_fsize (char **tok, int ntok) ;
+
 void iolog_account (int *blocks, long *bytes) ;
 
 /* fdworld.c (C19: real descriptors) */
